@@ -619,9 +619,9 @@ INFO['C07'] = {
 INFO['C08'] = {
     'bounds': 'for every dump of the C06 state space: (1) every proper prefix (symbolic length t < |D|, every byte offset), '
               '(2) every header/footer/tag/width word replaced by any other 32-bit value, (3) ordered pairs of incompatible stacks, '
-              '(4) a stream that fails from the n-th read on for every n below the number of reads: an exception is raised; no normal '
+              '(4) a stream that fails from the n-th read on for every n below the number of reads, (5) cases 1 and 4 again with stream exceptions enabled by the caller (failbit|badbit; the failing read itself throws ios_base::failure, the cleanup code of the reader runs during that unwinding): an exception is raised; no normal '
               'return, leak of partially built storage, abort, memory VC failure, decision on uninitialised data or hang (a loop past 400 iterations on these <= 300-byte inputs is a HANG finding, replayed natively under a 20 s limit); rel and dbg flavours',
-    'outside': 'streams that throw from read() themselves (exceptions mask set); allocation failure',
+    'outside': 'exception masks other than failbit|badbit (eofbit alone); streambufs that throw; allocation failure',
     'cuts': 'as C06; bytes a short read does not deliver stay uninitialised in the destination (undef-tagged)',
     'assumptions': ['width word of an EMPTY array switched to the other legal width is a valid file (C07), not an altered-word violation'],
 }
@@ -719,6 +719,13 @@ def units_C08(tier, seed):
                   cfg={'max_paths': 20000, 'hang_cap': 400}, timeout=1800)
         if k in (0, 3, 4, 5, 6, 12, 20, 21, 22) or th:
             U += unit(f'c08_failat_{k}', 'c06_io.cpp', f'failat_h<{k},{b if th else 1}>()', sites=[1, 2], flavours=fl, diff=(k == 3), weight=20,
+                      cfg={'max_paths': 20000, 'hang_cap': 400}, timeout=1800)
+    # the same with stream exceptions enabled by the caller (failbit | badbit): the failing read itself throws ios_base::failure
+    for k in IO_STACKS + IO_LAYERS:
+        U += unit(f'c08_truncexc_{k}', 'c06_io.cpp', f'trunc_h<{k},{b},true>()', sites=[1, 2], diff=(k == 3), weight=20,
+                  cfg={'max_paths': 20000, 'hang_cap': 400}, timeout=1800)
+        if k in (0, 3, 5, 21) or th:
+            U += unit(f'c08_failatexc_{k}', 'c06_io.cpp', f'failat_h<{k},{b if th else 1},true>()', sites=[1, 2], weight=20,
                       cfg={'max_paths': 20000, 'hang_cap': 400}, timeout=1800)
     for a, bb in ((3, 40), (40, 3), (3, 41), (41, 3), (3, 42), (42, 3), (0, 1), (1, 0), (2, 1), (3, 4), (4, 5), (5, 3), (7, 33), (33, 7), (6, 20), (10, 0), (0, 3)):
         U += unit(f'c08_pair_{a}_{bb}', 'c06_io.cpp', f'pair_h<{a},{bb},1>()', sites=[1], flavours=('rel', 'dbg') if a == 3 else ('rel',),
